@@ -484,6 +484,24 @@ func applyJailOp(h *mailbox.DirHandler, mbox string, op Op) string {
 			return "error: " + err.Error()
 		}
 		return "nil"
+	case "plant-link":
+		// preparation, not a call under test: a local user (or an archiving tool) has replaced a message file of the
+		// mailbox by a symbolic link to a file kept elsewhere. op.MID is the (ordinary) identifier, op.Arg the JSON
+		// string "<folder>|<link target>". What the remote station then does with that identifier must still stay inside.
+		var arg string
+		if err := json.Unmarshal(op.Arg, &arg); err != nil {
+			return "skipped: bad arg"
+		}
+		parts := strings.SplitN(arg, "|", 2)
+		if len(parts) != 2 {
+			return "skipped: bad arg"
+		}
+		p := filepath.Join(mbox, parts[0], string(op.MID)+mailbox.Ext)
+		os.Remove(p)
+		if err := os.Symlink(parts[1], p); err != nil {
+			return "skipped: cannot plant the link: " + err.Error()
+		}
+		return "ok"
 	case "reconfigured":
 		// a history: the application points the SAME handler value at another mailbox directory (the exported
 		// MBoxPath field), prepares it and works there; everything must then happen in that directory and
